@@ -539,11 +539,27 @@ func (v *Validator) typeOfComparison(env *requestEnv, left, right ast.IsNode, ca
 	if rightExpectErr != nil {
 		errs = append(errs, rightExpectErr)
 	}
+	// Both operands are individually comparable: they must also be of the same kind, as the evaluator only
+	// orders Long with Long, datetime with datetime and duration with duration.
+	if len(errs) == 0 && lt != nil && rt != nil && !sameComparableKind(lt, rt) {
+		errs = append(errs, unexpectedTypeErr(cedarTypeName(lt), rt))
+	}
 
 	if len(errs) > 0 {
 		return typeBool{}, caps, errors.Join(errs...)
 	}
 	return typeBool{}, caps, nil
+}
+
+// sameComparableKind reports whether two comparable types (Long, datetime, duration) are of the same kind.
+func sameComparableKind(a, b cedarType) bool {
+	if _, ok := a.(typeLong); ok {
+		_, ok := b.(typeLong)
+		return ok
+	}
+	ae, aok := a.(typeExtension)
+	be, bok := b.(typeExtension)
+	return aok && bok && ae.name == be.name
 }
 
 func (v *Validator) typeOfArith(env *requestEnv, left, right ast.IsNode, caps capabilitySet) (cedarType, capabilitySet, error) {
